@@ -58,47 +58,47 @@ theorem assignNames_strip (static : List String) (ps : List Proto) (acc : List C
 /-! ### conditional effects remover -/
 
 /-- what one agent's rebuilt action list consists of -/
-def CondAgentRel (mode : ConflictMode) (simp : Expr → Expr) (ag : Agent) (cag : CAgent) : Prop :=
+def CondAgentRel (O : Problem) (simp : Expr → Expr) (ag : Agent) (cag : CAgent) : Prop :=
   cag.name = ag.name ∧ cag.fluents = ag.fluents ∧
-  ∃ ps, condProtos mode simp ag = some ps ∧ cag.actions.map CAction.strip = ps.map Proto.strip
+  ∃ ps, condProtos O simp ag = some ps ∧ cag.actions.map CAction.strip = ps.map Proto.strip
 
-theorem condAgents_spec (mode : ConflictMode) (simp : Expr → Expr) (an : List String) (env : List FluentDecl) :
-    ∀ (todo : List Agent) (done out : List CAgent), condAgents mode simp an env done todo = some out →
-    ∃ news, out = done ++ news ∧ ListRel (CondAgentRel mode simp) todo news
+theorem condAgents_spec (O : Problem) (simp : Expr → Expr) (an : List String) (env : List FluentDecl) :
+    ∀ (todo : List Agent) (done out : List CAgent), condAgents O simp an env done todo = some out →
+    ∃ news, out = done ++ news ∧ ListRel (CondAgentRel O simp) todo news
   | [], done, out, h => by
     simp only [condAgents, Option.some.injEq] at h
     exact ⟨[], by simp [h], ListRel.nil⟩
   | ag :: todo, done, out, h => by
     unfold condAgents at h
-    cases hp : condProtos mode simp ag with
+    cases hp : condProtos O simp ag with
     | none => rw [hp] at h; cases h
     | some ps =>
       rw [hp] at h
       simp only at h
-      obtain ⟨news, h1, h2⟩ := condAgents_spec mode simp an env todo _ out h
+      obtain ⟨news, h1, h2⟩ := condAgents_spec O simp an env todo _ out h
       refine ⟨_ :: news, by rw [h1, List.append_assoc]; rfl, ListRel.cons ⟨rfl, rfl, ps, hp, ?_⟩ h2⟩
       rw [assignNames_strip]; rfl
 
-theorem condProtos_go_mem (mode : ConflictMode) (simp : Expr → Expr) : ∀ (as : List Action) (ps : List Proto),
-    condProtos.go mode simp as = some ps →
-    ∀ p, p ∈ ps ↔ ∃ a ∈ as, ∃ bs, condBodies mode simp a = some bs ∧ ∃ b ∈ bs,
+theorem condProtos_go_mem (O : Problem) (simp : Expr → Expr) : ∀ (as : List Action) (ps : List Proto),
+    condProtos.go O simp as = some ps →
+    ∀ p, p ∈ ps ↔ ∃ a ∈ as, ∃ bs, condBodies simp (Compile.cerExpand O a) = some bs ∧ ∃ b ∈ bs,
       p = { base := a.name, keepName := false, origin := some a.name, params := a.params, body := b }
   | [], ps, h => by
     simp only [condProtos.go, Option.some.injEq] at h
     subst h; simp
   | a :: as, ps, h => by
     unfold condProtos.go at h
-    cases hb : condBodies mode simp a with
+    cases hb : condBodies simp (Compile.cerExpand O a) with
     | none => rw [hb] at h; cases h
     | some bs =>
-      cases hg : condProtos.go mode simp as with
+      cases hg : condProtos.go O simp as with
       | none => rw [hb, hg] at h; cases h
       | some rest =>
         rw [hb, hg] at h
         simp only [Option.some.injEq] at h
         subst h
         intro p
-        rw [List.mem_append, condProtos_go_mem mode simp as rest hg p]
+        rw [List.mem_append, condProtos_go_mem O simp as rest hg p]
         constructor
         · rintro (hp | ⟨a', ha', hx⟩)
           · obtain ⟨b, hbm, rfl⟩ := List.mem_map.1 hp
@@ -112,17 +112,17 @@ theorem condProtos_go_mem (mode : ConflictMode) (simp : Expr → Expr) : ∀ (as
 
 /-- the prototypes of one agent: a clone of every unconditional action, and for every conditional
     action one prototype per yielded body — nothing else -/
-theorem condProtos_mem {mode : ConflictMode} {simp : Expr → Expr} {ag : Agent} {ps : List Proto}
-    (h : condProtos mode simp ag = some ps) (p : Proto) :
+theorem condProtos_mem {O : Problem} {simp : Expr → Expr} {ag : Agent} {ps : List Proto}
+    (h : condProtos O simp ag = some ps) (p : Proto) :
     p ∈ ps ↔
       (∃ a ∈ ag.actions, Action.isConditional a = false ∧
         p = { base := a.name, keepName := true, origin := some a.name, params := a.params, body := ⟨a.pre, a.effs⟩ }) ∨
-      (∃ a ∈ ag.actions, Action.isConditional a = true ∧ ∃ bs, condBodies mode simp a = some bs ∧ ∃ b ∈ bs,
+      (∃ a ∈ ag.actions, Action.isConditional a = true ∧ ∃ bs, condBodies simp (Compile.cerExpand O a) = some bs ∧ ∃ b ∈ bs,
         p = { base := a.name, keepName := false, origin := some a.name, params := a.params, body := b }) := by
   unfold condProtos at h
   simp only [Option.map_eq_some_iff] at h
   obtain ⟨rest, hgo, rfl⟩ := h
-  rw [List.mem_append, condProtos_go_mem mode simp _ rest hgo p]
+  rw [List.mem_append, condProtos_go_mem O simp _ rest hgo p]
   apply or_congr
   · simp only [List.mem_map, List.mem_filter]
     constructor
@@ -137,9 +137,9 @@ theorem condProtos_mem {mode : ConflictMode} {simp : Expr → Expr} {ag : Agent}
     · rintro ⟨a, ha, hc, hx⟩
       exact ⟨a, List.mem_filter.2 ⟨ha, hc⟩, hx⟩
 
-theorem condBodies_mem {mode : ConflictMode} {simp : Expr → Expr} {a : Action} {bs : List Body}
-    (h : condBodies mode simp a = some bs) (b : Body) :
-    b ∈ bs ↔ ∃ p ∈ powerset (List.range (condEffects a).length), condVariant mode simp a p = some (some b) := by
+theorem condBodies_mem {simp : Expr → Expr} {a : Action} {bs : List Body}
+    (h : condBodies simp a = some bs) (b : Body) :
+    b ∈ bs ↔ ∃ p ∈ powerset (List.range (condEffects a).length), condVariant simp a p = some (some b) := by
   unfold condBodies at h
   rw [(collect_some _ bs h).1 b, List.mem_map]
 
